@@ -169,6 +169,8 @@ func checkC15(p *Program, r *Report) {
 	c15ActionResults(p, r)
 	c15SourceAsGiven(p, r)
 	c15ExitOnCurrent(p, r)
+	c15ErrorsPropagate(p, r)
+	c15CursorPrimitives(p, r)
 	c15Identifiers(p, r, sm)
 }
 
@@ -1454,6 +1456,28 @@ func c15ActionResults(p *Program, r *Report) {
 	for _, f := range lhsField {
 		fields[f] = true
 	}
+	// every field some action reads from a right-hand-side symbol
+	type use struct {
+		rule, n int
+		f       string
+		pos     token.Pos
+	}
+	var uses []use
+	for _, rule := range rules {
+		cc := g.Clauses[rule]
+		if cc == nil {
+			continue
+		}
+		ast.Inspect(cc, func(nd ast.Node) bool {
+			if e, ok := nd.(ast.Expr); ok {
+				if f, k, ok := isSel(e, "yyDollar"); ok && k >= 1 && k <= len(g.RHS[rule]) {
+					fields[f] = true
+					uses = append(uses, use{rule, k, f, e.Pos()})
+				}
+			}
+			return true
+		})
+	}
 	symDefined := func(sym int, f string) bool {
 		if sym > 0 {
 			return true
@@ -1481,6 +1505,24 @@ func c15ActionResults(p *Program, r *Report) {
 			}
 		}
 	}
+	// a value read from a right-hand-side symbol is defined: the symbol is a token, or every rule of the symbol defines that field
+	nUse := 0
+	seenUse := map[string]bool{}
+	for _, u := range uses {
+		sym := g.RHS[u.rule][u.n-1]
+		key := fmt.Sprintf("%d|%d|%s", u.rule, u.n, u.f)
+		if seenUse[key] {
+			continue
+		}
+		seenUse[key] = true
+		nUse++
+		if symDefined(sym, u.f) {
+			continue
+		}
+		r.Fail("C15.R13", fmt.Sprintf("rule %s|$%d.%s read", g.RuleString(u.rule), u.n, u.f), p.Pos(u.pos),
+			fmt.Sprintf("the action reads $%d.%s, but symbol %s can derive nothing through a rule that sets no value: what is read is whatever an earlier reduction left in that slot of the value stack (a position taken from it belongs to a token of some earlier text)", u.n, u.f, g.SymName(sym)))
+	}
+	r.Note("C15.R13 uses of right-hand-side values checked", nUse)
 	n := 0
 	for _, rule := range rules {
 		f := lhsField[g.R1[rule]]
@@ -1622,4 +1664,163 @@ func c15ExitOnCurrent(p *Program, r *Report) {
 		}
 	}
 	r.Floor("C15.R15", n, 4)
+}
+
+// c15ErrorsPropagate (R16): in the hand-written part of package parser, a function that has an error result and tests the error
+// of a call hands that very error on when it returns from the failing side. An error kept in a local of its own (a shadowed
+// `err`) and a bare return give back "no error": an unterminated comment or string then ends the input silently and the
+// source counts as parsed.
+func c15ErrorsPropagate(p *Program, r *Report) {
+	sp := p.SSAPkg("parser")
+	if sp == nil {
+		return
+	}
+	n := 0
+	for _, fn := range SrcFuncs(sp) {
+		if strings.HasSuffix(p.RealFile(fn.Pos()), "parser.go") {
+			continue
+		}
+		res := fn.Signature.Results()
+		errIdx := -1
+		for i := 0; i < res.Len(); i++ {
+			if isErrorType(res.At(i).Type()) {
+				errIdx = i
+			}
+		}
+		if errIdx < 0 {
+			continue
+		}
+		k := 0
+		for _, b := range fn.Blocks {
+			iff, ok := b.Instrs[len(b.Instrs)-1].(*ssa.If)
+			if !ok {
+				continue
+			}
+			bo, ok := iff.Cond.(*ssa.BinOp)
+			if !ok || !isNilConst(bo.Y) || (bo.Op != token.NEQ && bo.Op != token.EQL) {
+				continue
+			}
+			ex, ok := bo.X.(*ssa.Extract)
+			if !ok || !isErrorType(ex.Type()) {
+				continue
+			}
+			if _, ok := ex.Tuple.(*ssa.Call); !ok {
+				continue
+			}
+			failSucc := b.Succs[0]
+			if bo.Op == token.EQL {
+				failSucc = b.Succs[1]
+			}
+			k++
+			n++
+			var carries func(v ssa.Value, d int) bool
+			carries = func(v ssa.Value, d int) bool {
+				if d > 6 {
+					return false
+				}
+				if v == ssa.Value(ex) {
+					return true
+				}
+				switch x := v.(type) {
+				case *ssa.Phi:
+					for _, e := range x.Edges {
+						if carries(e, d+1) {
+							return true
+						}
+					}
+				case *ssa.MakeInterface:
+					return carries(x.X, d+1)
+				case *ssa.ChangeInterface:
+					return carries(x.X, d+1)
+				case *ssa.Call:
+					for _, a := range x.Call.Args {
+						if carries(a, d+1) {
+							return true
+						}
+					}
+				case *ssa.Alloc:
+					for _, ref := range *x.Referrers() {
+						if st, ok := ref.(*ssa.Store); ok && carries(st.Val, d+1) {
+							return true
+						}
+					}
+				case *ssa.UnOp:
+					return carries(x.X, d+1)
+				case *ssa.Slice:
+					return carries(x.X, d+1)
+				case *ssa.IndexAddr:
+					return carries(x.X, d+1)
+				}
+				return false
+			}
+			bad := ""
+			// the first returns reached from the failing side
+			seen := map[*ssa.BasicBlock]bool{}
+			var visit func(x *ssa.BasicBlock)
+			visit = func(x *ssa.BasicBlock) {
+				if seen[x] {
+					return
+				}
+				seen[x] = true
+				if ret, ok := x.Instrs[len(x.Instrs)-1].(*ssa.Return); ok {
+					if len(ret.Results) > errIdx && !carries(ret.Results[errIdx], 0) {
+						// a different, non-nil error made here is fine too
+						if c, ok := ret.Results[errIdx].(*ssa.Const); ok && c.IsNil() {
+							bad = "the return at " + p.Pos(instrPos(ret)) + " gives back a nil error"
+						} else if ph, ok := ret.Results[errIdx].(*ssa.Phi); ok {
+							_ = ph
+							bad = "the return at " + p.Pos(instrPos(ret)) + " gives back an error value that does not come from the failed call"
+						}
+					}
+					return
+				}
+				for _, s2 := range x.Succs {
+					visit(s2)
+				}
+			}
+			visit(failSucc)
+			r.Check(bad == "", "C15.R16", fmt.Sprintf("%s|failing call #%d: its error is what is returned", funcName(fn), k), p.Pos(ex.Tuple.(*ssa.Call).Pos()), "every return reached from the failing side carries that error",
+				bad+": the failure of the call is lost (the error was kept in a local of its own), so the input is taken to have ended normally and a source with an unterminated construct counts as parsed")
+		}
+	}
+	r.Floor("C15.R16", n, 4)
+}
+
+// c15CursorPrimitives (R17): the scanner's cursor is moved by its primitives only (the one-step forward and backward functions and
+// the absolute setter): they are where the line count and the line head are kept in step with it. A scanning function that writes
+// the cursor field itself steps over newlines uncounted, and every later position is off.
+func c15CursorPrimitives(p *Program, r *Report) {
+	sm, err := buildScanModel(p)
+	if err != nil {
+		return
+	}
+	n := 0
+	for _, fn := range sm.methods {
+		writes := 0
+		for _, b := range fn.Blocks {
+			for _, in := range b.Instrs {
+				if st, ok := in.(*ssa.Store); ok {
+					if fa, ok := st.Addr.(*ssa.FieldAddr); ok && fa.Field == sm.offI && namedOf(derefType(fa.X.Type())) == sm.scanT {
+						writes++
+					}
+				}
+			}
+		}
+		if writes == 0 {
+			continue
+		}
+		n++
+		// a primitive: no loop, no call of another cursor-moving method, at most a handful of blocks
+		prim := len(loopsOf(fn)) == 0 && len(fn.Blocks) <= 6
+		for _, b := range fn.Blocks {
+			for _, in := range b.Instrs {
+				if c, ok := in.(*ssa.Call); ok && sm.step[staticCallee(c)] != 0 {
+					prim = false
+				}
+			}
+		}
+		r.Check(prim, "C15.R17", funcName(fn)+"|writes the cursor", p.Pos(fn.Pos()), "a cursor primitive (no loop, no other cursor move)",
+			"a scanning function writes the cursor field itself instead of going through the one-step primitives: newlines it steps over are not counted and the line head is not moved, so positions after it (and of a text parsed after this one) are wrong")
+	}
+	r.Floor("C15.R17", n, 2)
 }
